@@ -176,15 +176,23 @@ structure SeqIn where
   st : Nat
   hrrAsked : Bool
   flags : String
+  /-- pre-handshake calls: B BuildHandshakeState, R SetClientRandom, S SetSNI (same name), A ALPN edit -/
+  ops : List String
 
 def parseSeqIn (s : String) : Option SeqIn :=
-  match s.splitOn "/" with
-  | [id, sn, smax, ct, st, h, fl] => do
+  let mk (id sn smax ct st h fl : String) (ops : List String) : Option SeqIn := do
     let smax ← smax.toNat?
     let ct ← ct.toNat?
     let st ← st.toNat?
-    pure ⟨id, nameOf sn, smax, ct, st, h = "1", fl⟩
+    pure ⟨id, nameOf sn, smax, ct, st, h = "1", fl, ops⟩
+  match s.splitOn "/" with
+  | [id, sn, smax, ct, st, h, fl] => mk id sn smax ct st h fl []
+  | [id, sn, smax, ct, st, h, fl, ops] => mk id sn smax ct st h fl (if ops = "-" then [] else ops.splitOn ".")
   | _ => none
+
+/-- the pre-handshake calls as model operations (an edit changes the bytes before the binders block). -/
+def preOpsOf (ops : List String) : List PreOp :=
+  ops.map fun o => if o = "B" then PreOp.build else PreOp.edit (fun h => 0 :: h)
 
 def peekStr (s : Option Session) : String :=
   match s with
@@ -248,6 +256,8 @@ def seqStep (T : Tables) (na : Nat) (st : SeqState) (x : SeqIn × KV) : SeqState
       (if r.getD "dup" "0" = "1" ∨ r.getD "dup2" "0" = "1" then [p ++ "duplicate-session-extension"] else []) ++
       (if off = "psk" ∧ (r.nat "pos").map (· + 1) ≠ r.nat "n" then [p ++ "psk-not-last"] else []) ++
       (if r.getD "off2" "" = "psk" ∧ (r.nat "pos2").map (· + 1) ≠ r.nat "n2" then [p ++ "psk-not-last-after-hrr"] else []) ++
+      (if off = "psk" ∧ r.getD "bv" "1" ≠ "1" then [p ++ "binder-is-not-the-binder-of-the-bytes-sent"] else []) ++
+      (if r.getD "off2" "" = "psk" ∧ r.getD "bv2" "1" ≠ "1" then [p ++ "binder-is-not-the-binder-of-the-bytes-sent-after-hrr"] else []) ++
       (match (r.get "pl").map (·.splitOn ".") with
         | some [a, b, sent] => if a ≠ b ∨ sent ≠ "1" then [p ++ "patch-changed-hello-length"] else []
         | some _ => [p ++ "patch-changed-hello-length"]
@@ -304,6 +314,12 @@ def seqStep (T : Tables) (na : Nat) (st : SeqState) (x : SeqIn × KV) : SeqState
             (if r.nat "nid" ≠ some 1 then [p ++ "nid=1"] else []) ++
             (if r.nat "xl" ≠ some (pskExtLen [(zeros idl, 0)] [zeros hs]) ∨ r.getD "xok" "?" ≠ "1" then [p ++ "xl"] else []) ++
             (if r.nat "dage" ≠ some dage then [p ++ s!"dage={dage}"] else []) ++
+            (if r.getD "bv" "?" ≠ "1" then [p ++ "bv=1"] else []) ++
+            -- rebuilds: `PatchBuiltHello` runs once per build (recording extension)
+            (if (ci.id.splitOn "~rec").length > 1 then
+              let b := sentAfter (fun _ => zeros hs) (builtInit [] hs) (preOpsOf ci.ops)
+              if r.nat "pn" ≠ some b.patches then [p ++ s!"pn={b.patches}"] else []
+             else []) ++
             -- after a HelloRetryRequest crypto/tls re-binds the identity in the second hello
             (if m.hrr ∧ m.err.isNone then
               (if r.getD "off2" "?" ≠ "psk" then [p ++ "off2=psk"] else []) ++
@@ -331,7 +347,9 @@ def resumeSeq (c : Case) : Verdict :=
     let st := (ins.zip recs).foldl (seqStep T na) st0
     let golang := ins.any (·.id = "Golang-0")
     let names := (ins.map (·.sn)).eraseDups.length
-    let tag := s!"n{ins.length},off={if st.nOff = "" then "x" else st.nOff},r{min st.nRes 2}{if st.anyHrr then ",hrr" else ""}{if golang then ",go" else ""}{if st.anyErr then ",err" else ""}{if st.anyDel then ",del" else ""}{if names > 1 then ",names" else ""}"
+    let anyOps := ins.any (fun i => !i.ops.isEmpty)
+    let anyEdit := ins.any (fun i => i.ops.any (· ≠ "B"))
+    let tag := s!"n{ins.length},off={if st.nOff = "" then "x" else st.nOff},r{min st.nRes 2}{if st.anyHrr then ",hrr" else ""}{if golang then ",go" else ""}{if st.anyErr then ",err" else ""}{if st.anyDel then ",del" else ""}{if names > 1 then ",names" else ""}{if anyEdit then ",edit" else if anyOps then ",build" else ""}"
     -- a violation other than the known PSK+HRR one is reported first
     let other := st.fails.filter fun f => decide ((f.splitOn "psk-hrr-unsupported").length ≤ 1)
     match other, st.diffs, st.fails with
